@@ -14,8 +14,9 @@ from fmt import enc, opt, lst, optlist, coins, coin
 CONTRACT = "cosmos2contract"
 ACCOUNTS = ["alice", "bob", "carol", "dave", "erin", "frank", "grace", "heidi"]
 RATES = ["0", "0.003", "0.01", "0.1", "0.5", "0.25", "0.0005", "1", "0.999", "1.5", "0.05", "0.005",
-         "0.0954045954045954045954045954", "0.00000000000000000001", "-0.01", "0.3333333333333333333333333333"]
-RATE_W = [3, 6, 6, 6, 4, 3, 3, 1, 1, 1, 4, 3, 1, 1, 1, 1]
+         "0.0954045954045954045954045954", "0.00000000000000000001", "-0.01", "0.3333333333333333333333333333",
+         "2.5e-3", "1E-2", "1e0", ".01", "0.01_"]
+RATE_W = [3, 6, 6, 6, 4, 3, 3, 1, 1, 1, 4, 3, 1, 1, 1, 1, 1, 1, 0.5, 0.5, 0.5]
 
 
 def parse_dec(s):
@@ -163,6 +164,10 @@ class World:
         self.accounts = rng.sample(ACCOUNTS, nacc)
         conv = rng.sample(["cva", "cvb"], rng.choice([0, 1, 1, 2]))
         quotes = rng.sample(["qa", "qb", "qc"], rng.choice([1, 1, 2, 3]))
+        if rng.random() < 0.06:
+            quotes = quotes + ["base"]                      # the base denomination also accepted as a quote
+        if conv and rng.random() < 0.04:
+            quotes = quotes + [rng.choice(conv)]            # a convertible denomination also accepted as a quote
         for d in ["base"] + conv + quotes + ["zz"]:
             m = rng.choice(["R", "U", None, None])
             if m:
@@ -181,10 +186,12 @@ class World:
             return rng.choices(RATES, RATE_W)[0], rng.choice(self.accounts)
         afr, afa = feepair()
         bfr, bfa = feepair()
-        aat = rng.choice([[], [], [], ["kyc"], ["kyc", "acc"]])
-        bat = rng.choice([[], [], [], ["kyc"], ["buy"]])
+        aat = rng.choice([[], [], [], [], ["kyc"], ["kyc"], ["kyc", "acc"], ["kyc", "acc"], ["kyc", "kyc"], ["acc", "kyc", "acc"]])
+        bat = rng.choice([[], [], [], [], ["kyc"], ["kyc"], ["buy"], ["buy"], ["kyc", "buy"], ["buy", "buy"]])
         for a in self.accounts:
             have = [n for n in ["kyc", "acc", "buy"] if rng.random() < 0.8]
+            if have and rng.random() < 0.15:
+                have = have + [rng.choice(have)]          # the same attribute name held twice
             self.attrs[a] = have
         self.send(self.env_line())
         if rng.random() < 0.06:
@@ -275,8 +282,12 @@ class World:
         else:
             a = rng.choice(pend)
         sender = rng.choice(c.approvers) if c.approvers and rng.random() < 0.9 else rng.choice(self.accounts)
-        return dict(kind="approve_ask", sender=sender, id=a.key, base=c.base, size=a.size,
-                    funds=[] if self.restricted(c.base) else [(a.size, c.base)])
+        size = a.size
+        if rng.random() < 0.08:
+            # an approval that is consistent in itself (funds = its own size) but not with the ask's size
+            size = max(1, rng.choice([a.size // 2, a.size * 2, a.size + c.increment, a.size - c.increment, a.size + 1]))
+        return dict(kind="approve_ask", sender=sender, id=a.key, base=c.base, size=size,
+                    funds=[] if self.restricted(c.base) else [(size, c.base)])
 
     def r_match(self):
         c, rng = self.cfg, self.rng
@@ -489,6 +500,8 @@ class World:
                 self.markers.pop(d, None)
             a = rng.choice(self.accounts)
             self.attrs[a] = [n for n in ["kyc", "acc", "buy"] if rng.random() < 0.8]
+            if self.attrs[a] and rng.random() < 0.2:
+                self.attrs[a] = self.attrs[a] + [rng.choice(self.attrs[a])]
             self.send(self.env_line())
             return
         if kind == "query":
